@@ -268,6 +268,11 @@ def run(ctx):
     ctx.rule('C08-D6', 'least_squares: implicit-function layout, sign and residual definitions (shared analysis with C07)')
     ctx.guarded('C08-D6', 'fits.py:least_squares@layout', C07.d1_layout, ctx, fits, 'C08-D6', 'C08-D6', 'C08-D6')
     ctx.guarded('C08-D6', 'fits.py:least_squares@chisq', C07.d6_chisq, ctx, fits, 'C08-D6')
+    from .. import unusedparams
+    ctx.rule('C08-D7', 'every accepted option is read (no silently ignored parameter)')
+    for mn_ in ('fits',):
+        ctx.guarded('C08-D7', mn_ + '@parameters', unusedparams.check, ctx, 'C08-D7', ctx.repo.mod(mn_))
+
     ctx.floor('C08 obligations', len(ctx.obs), 28)
 
 
